@@ -57,6 +57,8 @@ class MultipleShooting(SamplingMethod):
         self.add_variables_V_control_finalize(stage, opti)
 
     def add_constraints(self, stage, opti):
+        if stage._constraints["integrator_roots"]:
+            raise Exception("Constraints with grid='integrator_roots' cannot be placed by a shooting method; use DirectCollocation.")
         # Obtain the discretised system
         F = self.discrete_system(stage)
 
